@@ -2,7 +2,10 @@
 """bin/theorems.py [--update]
 
 Inventory of the property and tie theorems with a hash of each STATEMENT (the text between `theorem <name>`
-and the `:=` that starts its proof, whitespace-normalised).  `lean/expectations/theorems.json` is committed;
+and the `:=` that starts its proof, whitespace-normalised), of every definition made inside a Props/Tie file
+(`#def:<name>`: predicates such as `Standard` or `WF` that theorem statements use — the whole declaration) and of
+every specification file the property's Props file imports, directly or not (`#spec:<file>`: comment-stripped,
+whitespace-normalised), so that a statement cannot be weakened through the definitions it is made of either.  `lean/expectations/theorems.json` is committed;
 bin/check compares it with the sources on every run, so a theorem that is deleted, renamed or whose statement
 is edited shows up as a broken obligation until the inventory is deliberately updated with --update
 (which is a reviewed change in git, like any other)."""
@@ -11,9 +14,10 @@ V = os.path.dirname(os.path.dirname(os.path.abspath(__file__)))
 EXP = os.path.join(V, "lean", "expectations", "theorems.json")
 
 
-def strip_comments(src):
-    src = re.sub(r"/-.*?-/", lambda m: "\n" * m.group(0).count("\n"), src, flags=re.S)
-    return "\n".join(l.split("--")[0] for l in src.split("\n"))
+sys.path.insert(0, os.path.dirname(os.path.abspath(__file__)))
+from leansrc import strip_comments  # noqa: E402
+
+DECL = r"(?:@\[[^\]]*\]\s*)?(?:private\s+|protected\s+|noncomputable\s+)*"
 
 
 def statements(path):
@@ -24,7 +28,7 @@ def statements(path):
     out = {}
     ns = []
     pos = 0
-    for m in re.finditer(r"^\s*(?:namespace\s+(\S+)|end\s+(\S+)|(?:@\[[^\]]*\]\s*)?(?:private\s+|protected\s+)?theorem\s+(\S+))", src, flags=re.M):
+    for m in re.finditer(r"^\s*(?:namespace\s+(\S+)|end\s+(\S+)|(?:@\[[^\]]*\]\s*)?(?:private\s+|protected\s+)?theorem\s+([^\s(:{\[]+))", src, flags=re.M):
         if m.group(1):
             ns.append(m.group(1))
         elif m.group(2):
@@ -55,6 +59,46 @@ def statements(path):
     return out
 
 
+TOP = re.compile(r"^(?:@\[[^\]]*\]\s*)?(?:private\s+|protected\s+|noncomputable\s+)*"
+                 r"(theorem|def|abbrev|structure|inductive|instance|example|namespace|end|open|section|"
+                 r"set_option|import|variable|mutual|class|attribute|deriving)\b", re.M)
+
+
+def definitions(path):
+    """{'#def:<name>': hash} for every def/abbrev/structure/inductive/class of a Props/Tie file."""
+    if not os.path.exists(path):
+        return {}
+    src = strip_comments(open(path).read())
+    marks = [m for m in TOP.finditer(src)]
+    out = {}
+    for k, m in enumerate(marks):
+        if m.group(1) not in ("def", "abbrev", "structure", "inductive", "class"):
+            continue
+        end = marks[k + 1].start() if k + 1 < len(marks) else len(src)
+        body = " ".join(src[m.start():end].split())
+        nm = re.match(r".*?\b(?:def|abbrev|structure|inductive|class)\s+([^\s(:{\[]+)", body)
+        out["#def:" + (nm.group(1) if nm else "?%d" % k)] = hashlib.sha1(body.encode()).hexdigest()[:16]
+    return out
+
+
+def spec_imports(path, seen=None):
+    """Hts/Spec/*.lean files reachable through `import Hts.…` from a Lean file"""
+    seen = set() if seen is None else seen
+    specs = set()
+    if not os.path.exists(path):
+        return specs
+    for m in re.finditer(r"^import\s+(Hts(?:\.\w+)+)", strip_comments(open(path).read()), flags=re.M):
+        mod = m.group(1)
+        if mod in seen:
+            continue
+        seen.add(mod)
+        f = os.path.join(V, "lean", *mod.split(".")) + ".lean"
+        if mod.startswith("Hts.Spec."):
+            specs.add(f)
+        specs |= spec_imports(f, seen)
+    return specs
+
+
 def current():
     inv = {}
     for d in ("Props", "Tie"):
@@ -62,8 +106,22 @@ def current():
         for f in sorted(os.listdir(base)):
             if f.endswith(".lean"):
                 pid = f[:-5]
-                inv.setdefault(pid, {}).update(statements(os.path.join(base, f)))
+                path = os.path.join(base, f)
+                inv.setdefault(pid, {}).update(statements(path))
+                inv[pid].update(definitions(path))
+                for sp in sorted(spec_imports(path)):
+                    body = " ".join(strip_comments(open(sp).read()).split())
+                    inv[pid]["#spec:" + os.path.relpath(sp, os.path.join(V, "lean"))] = \
+                        hashlib.sha1(body.encode()).hexdigest()[:16]
     return inv
+
+
+def what(n):
+    if n.startswith("#def:"):
+        return "definition %s used by the property statements" % n[5:]
+    if n.startswith("#spec:"):
+        return "specification file %s" % n[6:]
+    return "statement of theorem %s" % n
 
 
 def diff(pid):
@@ -75,12 +133,12 @@ def diff(pid):
     probs = []
     for n, h in exp.items():
         if n not in cur:
-            probs.append("theorem %s of the inventory is missing from the sources" % n)
+            probs.append("%s of the inventory is missing from the sources" % what(n))
         elif cur[n] != h:
-            probs.append("statement of theorem %s differs from the reviewed inventory" % n)
+            probs.append("%s differs from the reviewed inventory" % what(n))
     for n in cur:
         if n not in exp:
-            probs.append("theorem %s is not in the reviewed inventory (run bin/theorems.py --update and commit)" % n)
+            probs.append("%s is not in the reviewed inventory (run bin/theorems.py --update and commit)" % what(n))
     return probs
 
 
@@ -89,7 +147,10 @@ if __name__ == "__main__":
         inv = current()
         os.makedirs(os.path.dirname(EXP), exist_ok=True)
         json.dump(inv, open(EXP, "w"), indent=1, sort_keys=True)
-        print("inventory:", sum(len(v) for v in inv.values()), "theorems in", len(inv), "properties")
+        print("inventory:", sum(1 for v in inv.values() for k in v if not k.startswith("#")), "theorems,",
+              sum(1 for v in inv.values() for k in v if k.startswith("#def:")), "definitions,",
+              len(set(k for v in inv.values() for k in v if k.startswith("#spec:"))), "specification files in",
+              len(inv), "properties")
     else:
         bad = 0
         for pid in sorted(current()):
